@@ -121,7 +121,7 @@ struct Fixture {
     for (int i = 0; i < 3; ++i) { st[i] = IDLE; ep[i] = 0; got[i] = 0; }
     verif::registry().reset();
     %(publish_facilities)s
-    sh.reset(new Shell(loc, log, "inst")); comp = static_cast<Comp*>(verif::registry().component);
+    %(construct)s comp = static_cast<Comp*>(verif::registry().component);
     %(find_pump)s
     // a legal arbiter: grants iff unclaimed
     comp->%(port)s.in.%(claim)s = [this]%(claim_sig)s { ++handled; %(claim_outs)s if (!claimed) { claimed = true; return %(grant)s; } return %(deny)s; };
@@ -223,6 +223,9 @@ int main(int argc, char** argv) {
         # first 45 characters
         'client_ids': ('"plant.hall2.line7.station12.operatorPanel.left", "plant.hall2.line7.station12.operatorPanel.right", '
                        '"plant.hall2.line7.station12.operatorPanel.middle"') if cfg.get('fac') == 'import' else '"A", "B", "C"',
+        # REPRESENTATION: around the import shell the logger is a temporary (the shell must keep its own copy)
+        'construct': ('sh.reset(new Shell(loc, %s::ILog{}, std::string("in") + "st"));' % sns) if cfg.get('fac') == 'import'
+        else 'sh.reset(new Shell(loc, log, "inst"));',
         'user_facilities': 'dzn::pump user_pump; dzn::runtime user_rt;' if cfg.get('fac') == 'import' else '',
         'publish_facilities': 'loc.set(user_pump).set(user_rt);' if cfg.get('fac') == 'import' else '',
         'find_pump': 'pump = &user_pump;' if cfg.get('fac') == 'import' else 'pump = &sh->Locator().get<dzn::pump>();',
